@@ -54,6 +54,21 @@ def run_unit(A, unit, rep, tier):
                         rep.fail("C14.a", norm_key("C14.a", where, "merge" if n.kind == "data_mut" else "suspend-counter"),
                                  f"a read operation {what} (`{n.stmt}` in {n.func}, reached through {where}) without holding the collection lock: a concurrent writer's "
                                  f"update can be merged away or its save skipped", g.witness(g.path(g.entry, [n.id])), g.label)
+                # (d) the backend is read while the tree-wide suspend counter is NOT raised: while it is raised every
+                #     other thread's load and save on this tree are skipped, so raising it across I/O turns the short
+                #     merge window into a long one
+                from .c10 import count_dataflow
+                cs = count_dataflow(g)
+                for n in live(g):
+                    if n.kind == "enter" and n["fname"] == "_load_from_resource" and recv_is_root_T(n):
+                        raised = any(v > 0 for s_ in cs.get(n.id, [()]) for k_, v in s_ if "_suspend_sync" in k_ and k_.startswith("('T'"))
+                        if not raised:
+                            rep.ok("C14.d")
+                        else:
+                            caller = n.stack[-2][0] if len(n.stack) > 1 else n.func
+                            rep.fail("C14.d", norm_key("C14.d", caller, n.stmt if n.stmt else "load"),
+                                     f"{caller} reads the backend while the tree-wide suspend counter is raised: for the whole duration of the I/O every other thread's save on this tree is silently skipped (a writer returns normally and its update is lost)",
+                                     g.witness(g.path(g.entry, [n.id])), g.label)
                 for n in tests:
                     if all(want in held_ids(s) for s in st.get(n.id, [()])):
                         rep.ok("C14.b")
